@@ -769,6 +769,10 @@ impl Check for C18 {
             "expiry is judged with a 1-2 s margin around the boundary".into(),
         ]
     }
+    fn hang_cpu_budget(&self, _tier: Tier) -> Option<std::time::Duration> {
+        // a case of this check is a few milliseconds of computation; one that has burnt two minutes of CPU time is not coming back
+        Some(std::time::Duration::from_secs(120))
+    }
     fn cases(&self, tier: Tier) -> u64 {
         tier.pick(1_200, 40_000)
     }
